@@ -94,6 +94,18 @@ def run_unit(A, unit, rep, tier):
         rep.ok("C19.b", "C19.b get_type: a miss stores the tag it returns, a hit returns the stored tag unchanged")
     else:
         rep.fail("C19.b", norm_key("C19.b", f.qualname, "value"), "get_type: the cached value is not the tag computed / returned by the call", [f.loc], f.qualname)
+    # the memo is written only after the classification completed (not on an exception path)
+    in_finally = False
+    for n in ast.walk(src):
+        if isinstance(n, ast.Try):
+            for st_ in n.finalbody:
+                for x in ast.walk(st_):
+                    if isinstance(x, ast.Subscript) and isinstance(x.value, ast.Attribute) and x.value.attr == "type_map" and isinstance(x.ctx, ast.Store):
+                        in_finally = True
+    if in_finally:
+        rep.fail("C19.b", norm_key("C19.b", f.qualname, "store-on-exception-path"), "get_type writes the memo in a finally block: when a predicate raises, the type is cached with an unfinished classification and every later value of that type is misclassified", [f.loc], f.qualname)
+    else:
+        rep.ok("C19.b", "C19.b get_type writes the memo only after the classification completed")
     writers = []
     for g in m.functions:
         if g.module.name == ABC_MOD or g is f or g.name == "__init__" and g.cls is f.cls:
@@ -163,9 +175,9 @@ def run_unit(A, unit, rep, tier):
     # (c) module-level mutable state written by functions
     hits = scan_global_writes(m, [mod for nm, mod in m.modules.items() if nm != ABC_MOD])
     from ..model import Module
-    probe = Module("synced_collections._vsa_probe2", "<probe>", "_seen = {}\n_n = 0\n\ndef f(x):\n    global _n\n    _n += 1\n    _seen[type(x)] = x\n", False)
+    probe = Module("synced_collections._vsa_probe2", "<probe>", "_seen = {}\n_n = 0\n_s = set()\n\ndef f(x):\n    global _n\n    _n += 1\n    _seen[type(x)] = x\n    _s.add(type(x))\n", False)
     m._exec_module_body(probe, probe.tree.body)
-    if len(scan_global_writes(m, [probe])) != 2:
+    if len(scan_global_writes(m, [probe])) != 3:
         raise AnalysisError("module-global who-may-write self-check failed on the built-in positive example")
     if not hits:
         rep.ok("C19.c", "C19.c no function of the package writes module-level state (the only process-wide memo on classification paths is the resolvers' type_map); positive probe flagged")
@@ -191,6 +203,12 @@ def scan_global_writes(model, mods):
                 elif isinstance(n, ast.Name) and isinstance(n.ctx, ast.Store) and n.id not in globals_:
                     locals_.add(n.id)
             for n in ast.walk(fn):
+                if isinstance(n, ast.Call) and isinstance(n.func, ast.Attribute) and n.func.attr in ("add", "append", "update", "setdefault", "pop", "clear", "extend", "insert", "remove", "discard", "popitem"):
+                    base = n.func.value
+                    while isinstance(base, (ast.Subscript, ast.Attribute)):
+                        base = base.value
+                    if isinstance(base, ast.Name) and base.id not in locals_ and base.id in mod.symbols and mod.symbols[base.id][0] == "var" and isinstance(n.func.value, ast.Name):
+                        hits.append((fn.name, " ".join(ast.unparse(n).split())[:100], n.lineno, mod.path))
                 tg = []
                 if isinstance(n, ast.Assign):
                     tg = n.targets
